@@ -3,9 +3,10 @@
 P=$1; TIER=$2; shift 2
 cd /repo && git diff --quiet || { echo "/repo not clean"; exit 2; }
 git -C /repo apply "$P" || exit 2
-trap 'git -C /repo checkout -- . ' EXIT
+trap 'git -C /repo checkout -- . ; rm -rf "$OUT"' EXIT
+OUT=$(mktemp -d /tmp/evalout.XXXXXX)   # evidence and replays of a mutant run never land in /verif
 for prop in "$@"; do
-  out=$(cd /verif && ./check $prop --tier $TIER 2>&1); rc=$?
+  out=$(cd /verif && VERIF_OUT_DIR=$OUT ./check $prop --tier $TIER 2>&1); rc=$?
   v=$(echo "$out" | grep -c '^VIOLATION')
   echo "EVAL $prop tier=$TIER exit=$rc violations=$v :: $(echo "$out" | grep -m1 'reason:' | cut -c1-220)"
 done
